@@ -110,6 +110,14 @@ class Toks:
     def q(self):
         return tokq(self.next())
 
+    def qf(self):
+        """rational token as the nearest binary64 (int/int true division is correctly rounded)"""
+        s = self.next()
+        if '/' in s:
+            a, b = s.split('/')
+            return int(a, 16) / int(b, 16)
+        return float(int(s, 16))
+
     def list(self, f):
         n = self.int()
         return [f() for _ in range(n)]
